@@ -256,6 +256,8 @@ func (rc *runCtx) evalCandidatesRepeated(ph phase, raw json.RawMessage, class st
 	n := 1
 	if ph.Mode == "race" {
 		n = 32
+	} else if rc.flaky {
+		n = 12
 	}
 	raws := make([]json.RawMessage, n)
 	for i := range raws {
